@@ -32,10 +32,11 @@ const (
 	VKJoin0               // *VerifyError (hard) inside a multi-error: errors.Join(context, ve)
 	VKJoin1               // *VerifyError (soft) inside a multi-error: fmt.Errorf("%w: %w", context, ve)
 	VKNilVerr             // a typed-nil *VerifyError inside the error interface: "no error" written the wrong way round
+	VKPanic               // the type's Verify panics on this header (a peer-crafted header hitting a bug there)
 	VKShared              // ONE package-level *VerifyError (hard) returned by every call, as header types with sentinel errors do
 )
 
-var VKNames = []string{"link", "ok", "plain", "verr0", "verr1", "wrap0", "wrap1", "join0", "join1", "nilverr", "shared"}
+var VKNames = []string{"link", "ok", "plain", "verr0", "verr1", "wrap0", "wrap1", "join0", "join1", "nilverr", "panic", "shared"}
 
 var (
 	ErrLink     = errors.New("vhdr: previous-hash link broken")
@@ -132,6 +133,8 @@ func scripted(vk uint8) error {
 		return errors.Join(errors.New("vhdr: context"), &header.VerifyError{Reason: ErrScripted})
 	case VKJoin1:
 		return fmt.Errorf("%w: %w", errors.New("vhdr: context"), &header.VerifyError{Reason: ErrScripted, SoftFailure: true})
+	case VKPanic:
+		panic("vhdr: scripted panic in Verify")
 	case VKNilVerr:
 		var ve *header.VerifyError
 		return ve
@@ -205,7 +208,7 @@ func (d *Header) UnmarshalBinary(b []byte) error {
 		return err
 	}
 	d.Chain, d.H, d.T, d.Prev, d.Salt, d.VK, d.Forged, d.Bad, d.PV, d.NC = w.Chain, w.H, w.T, w.Prev, w.Salt, w.VK, w.Forged, w.Bad, w.PV, w.NC
-	d.hash = nil
+	// (the cached hash is NOT reset: like most header types, this one assumes it is decoded into a fresh value)
 	return nil
 }
 
